@@ -88,7 +88,9 @@ theorem save_changes_old (P : Params V) (L : Layout) (d0 d : Doc V) (chain0) (hb
     chLookup (save P L d).1.st.changes j = chLookup d.st.changes j := by
   have pf := prep_facts d0 d chain0 hb hi
   have hne : j ≠ (prep d).xid := by have := pf.xid_ge; omega
-  rcases save_cases P L d0 d chain0 hb hi with ⟨w, _, hs⟩ | ⟨w, _, _, hs⟩ | ⟨w, rows, _, _, hs⟩
+  by_cases hsz : d.st.refs.length + 2 ≤ MAX_ID
+  case neg => rw [save_too_big P L d (by omega)]
+  rcases save_cases P L d0 d chain0 hb hi hsz with ⟨w, _, hs⟩ | ⟨w, _, _, hs⟩ | ⟨w, rows, _, _, hs⟩
   · rw [hs]; exact pf.ch_sub j hj
   · rw [hs]; exact pf.ch_sub j hj
   · rcases hs with ⟨i, tr, hs⟩ | ⟨_, hs⟩ <;>
@@ -201,7 +203,8 @@ theorem mem_take_get (l : List XRef) (n : Nat) (e : XRef) (h : e ∈ l.take n) :
   · simp at hj
 
 theorem save_succeeds (P : Params V) (L : Layout) (hL : L.Pos) (d0 d : Doc V) (chain0) (hb : BaseOK d0 chain0)
-    (hi : Inv d0 d) (hs : Savable P d) : ∃ d' i, save P L d = (d', .ok i) := by
+    (hi : Inv d0 d) (hs : Savable P d) (hsz : d.st.refs.length + 2 ≤ MAX_ID) :
+    ∃ d' i, save P L d = (d', .ok i) := by
   have pf := prep_facts d0 d chain0 hb hi
   -- every pending value (the info dictionary included) can be serialised
   have hall : allOk P (prep d).st2.changes = true := by
@@ -210,7 +213,7 @@ theorem save_succeeds (P : Params V) (L : Layout) (hL : L.Pos) (d0 d : Doc V) (c
     | some ii =>
       obtain ⟨v, a, _, _, e, _⟩ := pf.info_some ii hir
       rw [e]; exact allOk_chInsert P _ _ _ _ hs.values_ok (hs.info_ok v a)
-  rcases save_cases P L d0 d chain0 hb hi with ⟨w, hw, _⟩ | ⟨w, hw, hr, _⟩ | ⟨w, rows, hw, hr, hs2⟩
+  rcases save_cases P L d0 d chain0 hb hi hsz with ⟨w, hw, _⟩ | ⟨w, hw, hr, _⟩ | ⟨w, rows, hw, hr, hs2⟩
   · -- the loop cannot fail
     have := writeChanges_outcome P L (prep d).st2.start (prep d).st2.changes
       ⟨(prep d).st2.refs, (prep d).st2.objs, (prep d).st2.len⟩ (keys_lt d0 _ pf.inv)
@@ -282,5 +285,47 @@ theorem save_succeeds (P : Params V) (L : Layout) (hL : L.Pos) (d0 d : Doc V) (c
         have : resolve (commit P L d (prep d) w (w.refs.set (prep d).xid (.raw (w.len - (prep d).st2.start) 0)) rows) ii
             = .val v := resolve_changed _ _ v 0 (by rw [hlook, if_neg hne]; exact b)
         simp [loadTrailer, hroot2, hir, this] at hl
+
+/-- after a successful save the document is savable again (the cross-reference stream left pending is
+    itself serialisable) -/
+theorem savable_after_save (P : Params V) (L : Layout) (hL : L.Pos) (d0 d d' : Doc V) (chain0) (i : SaveInfo)
+    (hb : BaseOK d0 chain0) (hi : Inv d0 d) (hx : P.ok P.xrefVal = true) (hs : Savable P d)
+    (h : save P L d = (d', .ok i)) : Savable P d' := by
+  have pf := prep_facts d0 d chain0 hb hi
+  obtain ⟨w, rows, hw, hr, hst, hl, _, _, _, _, _⟩ := save_ok_spec P L d d' i h
+  obtain ⟨f1, _, _, _⟩ := writeChanges_frame P L _ _ _ _ _ hw pf.inv.sorted
+  simp only at f1
+  have htr := save_tr_eq P L d0 d d' chain0 i hb hi h
+  have hall : allOk P (prep d).st2.changes = true := by
+    cases hir : (prep d).infoRef with
+    | none => rw [(pf.info_none hir).2.1]; exact hs.values_ok
+    | some ii =>
+      obtain ⟨v, a, _, _, e, _⟩ := pf.info_some ii hir
+      rw [e]; exact allOk_chInsert P _ _ _ _ hs.values_ok (hs.info_ok v a)
+  refine ⟨?_, ?_, ?_, ?_⟩
+  · rw [hst]; exact allOk_chInsert P _ _ _ _ hall hx
+  · rw [htr]; exact hs.info_ok
+  · intro j hj
+    exfalso
+    have hlen4 : (w.refs.set (prep d).xid (.raw (w.len - (prep d).st2.start) 0)).length = (prep d).xid + 1 := by
+      rw [List.length_set, f1, pf.len_eq]
+    rw [take_all _ _ (by omega)] at hr
+    have hrefs : d'.st.refs = w.refs.set (prep d).xid (.raw (w.len - (prep d).st2.start) 0) := by rw [hst]; rfl
+    rw [hrefs] at hj
+    have := rowsOf_none_of_promised _ (List.mem_of_getElem? hj)
+    rw [hr] at this; cases this
+  · obtain ⟨_, _, hroot, _, _⟩ := loadTrailer_ok _ _ _ _ _ hl
+    rw [htr]; exact hroot
+
+/-- a save allocates at most two numbers (info dictionary, cross-reference stream) -/
+theorem save_grows (P : Params V) (L : Layout) (d0 d d' : Doc V) (chain0) (i : SaveInfo)
+    (hb : BaseOK d0 chain0) (hi : Inv d0 d) (h : save P L d = (d', .ok i)) :
+    d'.st.refs.length ≤ d.st.refs.length + 2 := by
+  have pf := prep_facts d0 d chain0 hb hi
+  obtain ⟨w, rows, hw, hr, hst, hl, _, _, _, _, _⟩ := save_ok_spec P L d d' i h
+  obtain ⟨f1, _, _, _⟩ := writeChanges_frame P L _ _ _ _ _ hw pf.inv.sorted
+  simp only at f1
+  rw [hst]; simp only [commit, List.length_set]; rw [f1, pf.len_eq]
+  have := pf.xid_le; omega
 
 end Storage
